@@ -19,7 +19,7 @@ struct TolChi {
             cd x = A(n, m) * B(m, n); if (std::abs(x) < 1e-300) continue;
             ChiTerm t{x, w(n), w(m), E(m) - E(n)};
             if (std::abs(t.P) < 1e-8 * (1 + 1e-6)) zero.push_back(t);
-            if (std::abs(t.P) >= 1e-8 * (1 - 1e-6)) { if (std::abs(x * (t.wn - t.wm)) <= 1e-8 * (1 + 1e-6)) dropped.push_back(t); else kept.push_back(t); }
+            if (std::abs(t.P) >= 1e-8 * (1 - 1e-6)) { if (std::abs(x * (t.wn - t.wm)) <= 1e-8 * (1 + 1e-6)) dropped.push_back(t); kept.push_back(t); }   // `kept`: every term outside the zero window (merging / rounding allowances apply whether or not the library keeps it)
         }
         std::sort(kept.begin(), kept.end(), [](const ChiTerm& a, const ChiTerm& b) { return a.P < b.P; });
         const double merge = 1e-8;
